@@ -275,7 +275,25 @@ pub fn run(args: &Args) -> Report {
     r
 }
 
+/// Not part of C18 (observation only, reachable through --replay {"phase":"drop","fail_mmap":k}):
+/// what set-up leaves behind when its k-th mmap fails with ENOMEM.
+fn setup_failure_probe(k: usize) {
+    let fds0 = sysx::fd_table();
+    let mut plan = sysx::FailKth { k, errno: libc::ENOMEM as i64, seen: 0, hit: false, pred: |nr: i64, _: &[u64; 6]| nr == libc::SYS_mmap, execute_anyway: false };
+    let (res, log) = sysx::run(&mut plan, || setup_io_uring(4, flags_from_bits(0), 0, 0).map(|_| ()));
+    for c in &log {
+        println!("  {}({:#x}, {:#x}, ..) = {}", sysx::name(c.nr), c.args[0], c.args[1], c.ret);
+    }
+    let fds1 = sysx::fd_table();
+    let (_, uring_maps, _) = maps_lines();
+    println!("setup_io_uring with mmap #{k} failing: {:?}; descriptors before {fds0:?} after {fds1:?}; io_uring mappings left: {uring_maps}", res.map_err(|e| format!("{e}")));
+}
+
 pub fn replay(v: &Value, r: &mut Report) {
+    if let Some(k) = v.get("fail_mmap").and_then(|k| k.as_u64()) {
+        setup_failure_probe(k as usize);
+        return;
+    }
     let e = v["ring"].as_u64().unwrap_or(4) as u32;
     let f = v["flags"].as_u64().unwrap_or(0) as u32;
     let used = v["used"].as_bool().unwrap_or(false);
